@@ -112,6 +112,9 @@ def run(ctx):
                 ctx.violation(f"frame:loop-constraint-raises:{type(e).__name__}", f"a loop constraint on a {h}x{w} frame raised {e!r}", {"frame": [h, w]})
             ctx.count("c14.loop_constraint_frames")
             ctx.case(["loop-constraints", h, w], nontrivial=True)
+    from .c13 import realistic_stage
+
+    realistic_stage(ctx, thorough)
     ctx.sample({"frame": [2, 3], "item": [1, 4], "geometry": "vertical segment (0,2)-(1,2)"})
     mframe.uninstall()
 
